@@ -710,9 +710,22 @@ def _str_split(E, path, fv, args, kwargs, frame):
     raise Unsupported("str.split on symbolic string")
 
 
+def _dict_fromkeys(E, path, fv, args, kwargs, frame):
+    # dict.fromkeys(xs) keeps the first occurrence of each element: over a mapped symbolic sequence this is a content-dependent
+    # selection of its items, kept as a marker (only `sep.join(...)` of it is modelled, as a text no reader contract covers)
+    if len(args) == 1 and isinstance(args[0], SeqMap) and not kwargs:
+        return ExtVal("dict.fromkeys", [args[0]])
+    raise Unsupported("builtin dict.fromkeys")
+
+
 def _str_join(E, path, fv, args, kwargs, frame):
     sep = fv.self_val
     (it,) = args
+    if isinstance(it, ExtVal) and it.name == "dict.fromkeys" and it.args and isinstance(it.args[0], SeqMap):
+        sm = it.args[0]
+        f = E.uf("str_join_distinct", z3.StringSort(), E.U.Seq, z3.IntSort(), z3.StringSort())
+        path.ghost["nmaps"] = path.ghost.get("nmaps", 0) + 1
+        return SStr([Atom(f(_sterm(sep), sm.seq_term, z3.IntVal(path.ghost["nmaps"])), ("join_map_filtered", sep, sm))])
     items = E.iter_concrete(path, it)
     if items is None:
         if isinstance(it, SeqMap):
@@ -876,5 +889,5 @@ _TABLE = {
     "str.split": _str_split, "str.join": _str_join, "str.startswith": _str_startswith,
     "str.endswith": _str_endswith,
     "list.append": _list_append, "list.insert": _list_insert, "list.extend": _list_extend, "list.pop": _list_pop,
-    "dict.items": _dict_items, "dict.get": _dict_get, "dict.keys": _dict_keys, "dict.values": _dict_values,
+    "dict.fromkeys": _dict_fromkeys, "dict.items": _dict_items, "dict.get": _dict_get, "dict.keys": _dict_keys, "dict.values": _dict_values,
 }
